@@ -891,6 +891,8 @@ use std::cell::RefCell;
 thread_local! { static LOG: RefCell<Vec<String>> = RefCell::new(Vec::new()); }
 pub fn log(s: String) { LOG.with(|l| l.borrow_mut().push(s)); }
 pub fn take() -> String { LOG.with(|l| std::mem::take(&mut *l.borrow_mut())).join(\";\") }
+pub trait Id { type T; }
+impl<X> Id for X { type T = X; }
 "
 
 /-- the operand types, local to every case module (each case implements operators for them) -/
@@ -912,7 +914,11 @@ def genFwdRunCase (seed idx : Nat) : Case := runGen seed idx do
   let selfTy : Ty := if bl && !baseAssign then .ref none false tA else tA
   let rhsTy : Ty := if br then .ref none false rhsBase else rhsBase
   -- written with `Self` where that is the same type
-  let rhsWritten ← if rhsIsA && !bl && (← chance 1 2) then pure (if br then Ty.ref none false Ty.selfTy else Ty.selfTy) else pure rhsTy
+  -- … also as the self type of a qualified path (`<Self as Id>::T` is `Self`)
+  let qSelf : Ty := .qpath Ty.selfTy false [.mk "Id" []] [.mk "T" []]
+  let selfSpelling ← pickW [(2, Ty.selfTy), (1, qSelf)]
+  let rhsWritten ← if rhsIsA && !bl && (← chance 1 2) then pure (if br then Ty.ref none false selfSpelling else selfSpelling) else pure rhsTy
+  let outWritten ← if !bl && !baseAssign then pickW [(2, tA), (1, Ty.selfTy), (1, qSelf)] else pure tA
   let traitName := op.str ++ (if baseAssign then "Assign" else "")
   let omitArg := !baseAssign && rhsIsA && !br && !bl
   let omitArg ← if omitArg then chance 1 2 else pure false
@@ -926,7 +932,7 @@ def genFwdRunCase (seed idx : Nat) : Case := runGen seed idx do
       [s!"fn {f}_assign(&mut self, rhs: {rty}) \{ log(format!(\"base_assign \{} \{}\", self.0, rhs.0)); self.0 = format!(\"[\{}{sym}=\{}]\", self.0, rhs.0); }"]
     else
       [s!"fn {f}(self, rhs: {rty}) -> A \{ log(format!(\"base \{} \{}\", self.0, rhs.0)); A(format!(\"[\{}{sym}\{}]\", self.0, rhs.0)) }"]
-  let members : List ImplMember := (if baseAssign then [] else [.output tA]) ++ [.other fnToks]
+  let members : List ImplMember := (if baseAssign then [] else [.output outWritten]) ++ [.other fnToks]
   let reqStyle ← below 6
   let opn := op.str
   let items : List DeriveItem :=
@@ -951,7 +957,7 @@ def fwdRunProgram (c : Case) (modName : String) : String × List String :=
   match fwdImplOf c with
   | none => ("", [])
   | some f =>
-    let rhsIsA := f.rhs.toks == ["A"]
+    let rhsIsA := f.rhs.toks.contains "A"
     let rhsT := if rhsIsA then "A" else "B"
     let cloneTag (isRhs : Bool) := if isRhs && !rhsIsA then "cloneB" else "cloneA"
     let sym := f.op.sym
